@@ -821,6 +821,33 @@ func (env *SpecEnv) evalCall(e *Expr) SVal {
 	case "trim":
 		a := env.eval(e.Args[0])
 		return SVal{T: trimSpaceTerm(a.T), GT: a.GT}
+	case "wlen":
+		// wlen(p): number of items walk.Plan(p) yields (iter rule)
+		a := env.eval(e.Args[0])
+		return SVal{T: env.x.walkLen(env.st, a.T)}
+	case "wobj", "wparent":
+		// wobj(p, k): the Value of item k of walk.Plan(p); wparent(p, k): the last element of its Chain
+		a := env.eval(e.Args[0])
+		k := env.eval(e.Args[1])
+		wf := env.x.w.pkgByName("workflow", nil)
+		var gt types.Type
+		if wf != nil {
+			if o := wf.Scope().Lookup("Object"); o != nil {
+				gt = o.Type()
+			}
+		}
+		if e.Name == "wobj" {
+			return SVal{T: env.x.walkObj(env.st, a.T, k.T), GT: gt}
+		}
+		return SVal{T: env.x.walkParent(env.st, a.T, k.T), GT: gt}
+	case "wfacts":
+		// wfacts(p, k): the assumed facts of the iter rule about item k (usable in lemmas and contracts)
+		a := env.eval(e.Args[0])
+		k := env.eval(e.Args[1])
+		return SVal{T: env.x.iterFacts(env.st, a.T, k.T)}
+	}
+	if b, ok := specBuiltins[e.Name]; ok {
+		return b(env, e)
 	}
 	if m := env.macro(e.Name); m != nil {
 		if len(m.Params) != len(e.Args) {
